@@ -19,7 +19,7 @@ from . import core
 from .core import SBool, SInt, SReal, Sym, ite, land, lnot, lor
 from .tensor import SymTensor, mk, _objarr
 
-TOL = 1e-4
+TOL = 1e-5
 
 
 class AssumptionFailed(Exception):
